@@ -267,6 +267,7 @@ impl Scenario for C11 {
             write_faults: false,
             read_faults: true,
             heartbeat: 0,
+            explicit_drop_after_server_cancel: false,
         };
         let life = gen_life(&mut cs, &lc);
         let (res, world) = run_generated(&life.gen, cs, text, |_| {});
